@@ -94,6 +94,25 @@ def cases(tier, seed):
         ks = range(0, n + 1) if (n <= 65 or (tier == "thorough" and n <= 256)) else [rnd.randint(0, n) for _ in range(8)]
         ops += ["crc.split %04x %s %d" % (init, buf, k) for k in ks]
         cs.append(Case("buf-%d" % i, ops, ("buffer",)))
+    # sparse buffers: runs of zero octets behind / between a few non-zero ones, from start value zero and others (zero
+    # octets from state zero leave the state alone - a shortcut taken on that must not be taken one octet too early or late);
+    # the harness runs every buffer at start alignments 0..7
+    ops = []
+    for n in (4, 5, 8, 9, 12, 13, 16, 17, 24):
+        for p in range(0, min(n, 9)):
+            b = [0] * n
+            b[p] = rnd.choice([1, 0x80, 0xff, rnd.randint(1, 255)])
+            for init in (0, 0, 0xffff):
+                ops.append("crc.buf %04x %s" % (init, "".join("%02x" % x for x in b)))
+    for _ in range(150 if tier == "quick" else 1500):
+        n = rnd.randint(4, 40)
+        b = [rnd.randint(1, 255) if rnd.random() < 0.15 else 0 for _ in range(n)]
+        init = rnd.choice([0, 0, 0, 0xffff, rnd.getrandbits(16)])
+        h = "".join("%02x" % x for x in b)
+        ops.append("crc.buf %04x %s" % (init, h))
+        ops.append("crc.split %04x %s %d" % (init, h, rnd.randint(0, n)))
+    for i in range(0, len(ops), 100):
+        cs.append(Case("sparse-%d" % i, ops[i:i + 100], ("buffer", "sparse")))
     # word buffers
     for n in range(0, 65):
         img = rhex(rnd, 2 * n)
